@@ -25,13 +25,16 @@ Spaces(n) == [k \in 1..n |-> SP]
 ColName  == <<1, 16>>   ColMtime == <<17, 28>>  ColUid == <<29, 34>>  ColGid == <<35, 40>>
 ColMode  == <<41, 48>>  ColSize  == <<49, 58>>  ColMagic == <<59, 60>>
 
+\* zfill: the size column is written right-justified and zero-filled (the other columns carry their zeros in the model)
+ZeroFilled(m) == "zfill" \in DOMAIN m /\ m.zfill
 Header(m, gnu) ==
     PadRight(m.name \o (IF gnu THEN <<SLASH>> ELSE <<>>), 16) \o
     (IF m.blank THEN Spaces(12) ELSE PadRight(m.mtime, 12)) \o
     (IF m.blank THEN Spaces(6) ELSE PadRight(m.uid, 6)) \o
     (IF m.blank THEN Spaces(6) ELSE PadRight(m.gid, 6)) \o
     (IF m.blank THEN Spaces(8) ELSE PadRight(m.mode, 8)) \o
-    PadRight(NatToDigits(Len(m.data)), 10) \o <<BACKTICK, LF>>
+    (IF ZeroFilled(m) THEN [k \in 1..(10 - Len(NatToDigits(Len(m.data)))) |-> 48] \o NatToDigits(Len(m.data))
+     ELSE PadRight(NatToDigits(Len(m.data)), 10)) \o <<BACKTICK, LF>>
 
 MemberBytes(m, gnu) == Header(m, gnu) \o m.data \o (IF Len(m.data) % 2 = 1 THEN <<LF>> ELSE <<>>)
 
